@@ -251,8 +251,16 @@ def run_busy(ctx, info):
                 o.get("first_items"), o["first_err"], o.get("second_items")))
         elif not o["stats_returned"]:
             problems.append("Stats did not return within five seconds after the refused dequeue")
+        if o.get("enqueue_tried"):
+            stats["enqueues_while_locked"] = stats.get("enqueues_while_locked", 0) + 1
+            if o["enqueue_err"]:
+                stats["enqueues_refused_busy"] = stats.get("enqueues_refused_busy", 0) + 1
+            if not o["enqueue_err"] and not o["enqueue_stored"]:
+                problems.append("an enqueue by the gateway while the other process held the write lock reported SUCCESS, yet its message is not in the queue")
+            if o["enqueue_err"] and o["enqueue_stored"]:
+                problems.append("an enqueue by the gateway was answered %r, yet its message is in the queue" % o["enqueue_err"])
         if problems:
-            C.report(ctx, "two-stores-busy:%s" % ("refused" if o["first_err"] else "not-refused"), "; ".join(problems),
+            C.report(ctx, "two-stores-busy:%s%s" % ("refused" if o["first_err"] else "not-refused", ":enqueue-acknowledged-not-stored" if (o.get("enqueue_tried") and not o["enqueue_err"] and not o["enqueue_stored"]) else ""), "; ".join(problems),
                      {"kind": "history", "case": c, "observed": o,
                       "calls": ["stores A (gateway, busy_timeout 15 ms) and B opened on one SQLite file", "evt_2 leased by B (1 s), evt_1 leased by A (1 s); clock +2 s",
                                 "B.%s(its expired lease) with A.Dequeue run at B's clock reading no. %d (no. 2 is inside B's write transaction)" % (c["b_op"], c["hook_at"]),
